@@ -32,6 +32,7 @@ func c18Legs(tier string, merge bool) []pairLeg {
 		add("deep", Deep(true))
 		add("mixed", Mixed())
 		add("hostile-arrays", HostileArrays())
+		add("large", Large())
 		add("E2", EditStates(2, 1500))
 	} else {
 		add("U4", U(4))
@@ -44,6 +45,7 @@ func c18Legs(tier string, merge bool) []pairLeg {
 		add("deep", Deep(true))
 		add("mixed", Mixed())
 		add("hostile-arrays", HostileArrays())
+		add("large", Large())
 		add("E1", EditStates(1, 300))
 	}
 	return legs
